@@ -1,0 +1,12 @@
+//go:build verif
+
+package shutterservice
+
+// Hook for the verification harness in /verif (family svce2e: the composition registration ->
+// sync -> trigger -> gossip -> decrypted flags, growth stage of property C02). Add-only, compiled
+// only with -tags verif: a setter for an unexported field, no behaviour of its own. The other
+// accessors the family uses are in zz_verif_service.go and zz_verif_gossipval.go.
+
+// VerifSetRegistrySyncer sets the syncer initRegistrySyncer would create (processNewBlock calls
+// its Sync before the MultiEventSyncer's).
+func (kpr *Keyper) VerifSetRegistrySyncer(s *RegistrySyncer) { kpr.registrySyncer = s }
